@@ -137,6 +137,25 @@ def responder_case(ck, rng, thr, e, h, variant, i, own=0):
                 sim.net.clear()
                 if pool_n:
                     pool[k_ % pool_n] = (d2, spi, nonce, ke)
+    # ... and TIME passes before the request under test arrives (a slow flood, a machine that was suspended): half a DPD interval, more than one, minutes, more than
+    # an IKE_SA lifetime. What counts is what the table holds THEN: an IKE_SA that is still there and not established counts, however old it is
+    wait = (0, 0, 30, 70, 300, 4000)[(i // 3) % 6]
+    if wait:
+        sim.case['seconds_between_the_fill_and_the_request'] = wait
+        sim.clock.advance(wait)
+        # (the daemon catches up with its own timers first - probes and rekeys of established IKE_SAs towards peers that no longer answer run into their time-outs -
+        # until its table has stopped changing: the request under test is judged against a quiescent daemon, as in the cases without a wait)
+        stable, last = 0, None
+        for _ in range(80):
+            hub.step('tick')
+            sim.net.clear()
+            sim.clock.advance(1.1)
+            now = [(id(x), x.state.name) for x in hub.ctl.ike_sas]
+            stable = stable + 1 if now == last and not any(n_.endswith('_REQ_SENT') and n_ not in ('INIT_REQ_SENT', 'AUTH_REQ_SENT') for _i, n_ in now) else 0
+            last = now
+            if stable >= 3:
+                break
+        ck.count('responder.requests_arriving_long_after_the_fill')
     half = sum(1 for s in hub.ctl.ike_sas if s.state.value < 10)
     est = sum(1 for s in hub.ctl.ike_sas if s.state.value >= 10)
     secret = bytes(hub.ctl.cookie_secret)
@@ -285,6 +304,20 @@ def initiator_case(ck, rng, i):
         if sim.net and sim.net.pop(0).data != req1:
             ck.violation('retransmission-of-the-cookie-less-request-differs-from-it', {}, sim.case)
         sim.net.clear()
+    overdue = i % 6 == 5
+    if overdue:
+        # the challenge is VERY slow: every retransmission of the cookie-less request has gone out and the last deadline passes just before the challenge arrives, in
+        # a turn woken by that datagram (the clock has not ticked since): the request repeated with the cookie is a request of its own, with its own budget
+        sa0 = a.ctl.ike_sas[0] if a.ctl.ike_sas else None
+        for _t in range(60):
+            if sa0 is None or sa0.retransmissions >= type(sa0).MAX_RETRANSMISSIONS:
+                break
+            sim.tick_all(0.5)
+            sim.net.clear()
+        if sa0 is not None and sa0 in a.ctl.ike_sas:
+            sim.clock.advance(max(0.0, sa0.retransmit_at - sim.clock.t) + 0.3)
+            ck.count('initiator.challenges_arriving_after_the_last_retransmission_deadline')
+            sim.case['challenge_arrives_after_the_last_deadline'] = True
     sim.case['request_retransmitted_before_the_challenge'] = early
     cookie = gen.rb(rng, rng.choice([1, 16, 32, 64]))
     m1 = codec.decode(req1, strict_bodies=True)
@@ -297,6 +330,9 @@ def initiator_case(ck, rng, i):
         ck.violation('initiator-did-not-repeat-its-request-after-a-cookie', {}, sim.case)
         return
     req2 = sim.net.pop(0).data
+    if not any(x.state.name == 'INIT_REQ_SENT' for x in a.ctl.ike_sas):
+        ck.violation('initiator-gave-up-in-the-turn-in-which-it-repeated-its-request-with-the-cookie', {'table': [x.state.name for x in a.ctl.ike_sas], 'challenge_after_the_last_deadline': overdue}, sim.case)
+        return
     m2 = codec.decode(req2, strict_bodies=True)
     p0 = m2['payloads'][0] if m2['payloads'] else None
     if m2['mid'] != 0 or m2['exch'] != 34 or m2['flags'] & 0x20 or m2['spi_i'] != m1['spi_i']:
@@ -405,7 +441,7 @@ def run(ck):
                         if not thorough and e == 3 and v.startswith('bitflip') and v != 'bitflip-1':
                             continue
                         responder_case(ck, ck.rng('resp', n), thr, e, h, v, n, own=3 if (n // 8) % 3 == 0 else 0)
-    for i in range(24 if not thorough else 3000):
+    for i in range(36 if not thorough else 3000):
         if ck.mine(i):
             initiator_case(ck, ck.rng('init', i), i)
 
@@ -415,6 +451,7 @@ def verdict(ck):
     ck.floor('responder cases in which the daemon has a handshake of its own in progress', c['responder.cases_with_an_own_handshake_in_progress'], 80)
     ck.floor('responder cases whose half-open IKE_SAs are copies of few requests', c['responder.filled_by_copies_of_few_requests'], 60)
     ck.floor('requests that had to be refused with a cookie', c['responder.must_demand'], 150)
+    ck.floor('requests under test that arrived 30 s to more than an hour after the table had been filled', c['responder.requests_arriving_long_after_the_fill'], 300)
     ck.floor('valid cookies accepted under load', c['responder.valid_cookie_accepted'], 15)
     ck.floor('grid cells', len(ck.sets['responder.grid']), 400)
     ck.floor('IKE_SAs the daemon opened itself before the flood', c['responder.own_ike_sas_completed'], 200)
@@ -424,5 +461,6 @@ def verdict(ck):
     ck.floor('retransmissions of the repeated request compared', c['initiator.retransmissions_of_the_repeated_request'], 12)
     ck.floor('... of which after the cookie-less request had itself been retransmitted', c['initiator.retransmissions_checked_after_an_earlier_retransmission'], 5)
     ck.floor('AUTH payloads verified by the reference over the request sent last', c['initiator.auth_after_cookie_verified'], 10)
+    ck.floor('cookie challenges arriving right after the last retransmission deadline of the cookie-less request', c['initiator.challenges_arriving_after_the_last_retransmission_deadline'], 3)
     ck.floor('second cookie challenges', c['initiator.second_challenges'], 8)
     return None
